@@ -105,7 +105,17 @@ impl Prop for C12 {
             let nb_in = NbIndex::new(&input);
             let nb_out = NbIndex::new(&output);
             if nb_in.len() != nb_out.len() {
+                // non-blank characters were lost or added somewhere (C01's business); a literal that must be
+                // kept byte for byte can still be judged: its text has to occur in the output
                 out.count("unplaceable_outputs");
+                if !obs.has_fallback() {
+                    for lit in lits.iter().filter(|l| !l.conforming) {
+                        if !output.contains(&lit.text) {
+                            out.violate("C12", "verbatim-literal-changed", format!("[{}] carrier {ci}, literal shape [{}]: the literal must be reproduced byte for byte (it violates the indentation rule) but its text {:?} does not occur in the output", cfg.short(), lit.shape, short(&lit.text, 120)), &input, Some(&cfg));
+                            break;
+                        }
+                    }
+                }
                 continue;
             }
             for (li, lit) in lits.iter().enumerate() {
